@@ -242,7 +242,9 @@ class Ctx:
         return cases
 
     # -- run cases through the implementation ---------------------------------
-    def run_cases(self, cases, deadline=20, workers=None, binary=None):
+    def run_cases(self, cases, deadline=20, workers=None, binary=None, max_timeouts=None):
+        """max_timeouts: once that many cases have run into the deadline the rest is not run (each of them is a
+        violation already; a tree that hangs would otherwise hold the check for deadline x cases)"""
         if not cases:
             return []
         binary = binary or self.lqh
@@ -282,6 +284,12 @@ class Ctx:
             if os.path.exists(fout):
                 os.remove(fout)
             pending = [c for c in pending if str(c["id"]) not in obs]
+            if max_timeouts and sum(1 for o in obs.values() if o.get("outcome") == "timeout") >= max_timeouts and pending:
+                self.notes.append("%d cases not run after %d ran into the deadline" % (len(pending), max_timeouts))
+                ids = [i for i in ids if str(i) in obs]
+                cases = [c for c in cases if str(c["id"]) in obs]
+                pending = []
+                break
             if p.returncode == 0:
                 if pending:
                     raise Infra("harness lost %d cases" % len(pending))
